@@ -9,6 +9,7 @@ import (
 	"runtime"
 	"strings"
 	"sync"
+	"syscall"
 	"time"
 
 	"github.com/bluenviron/gomavlib/v3"
@@ -30,6 +31,7 @@ type memConn struct {
 	failAt      int                   // index of the Write call that fails (-1: none)
 	failLen     int                   // number of consecutive Write calls that fail, starting at failAt (0 means 1)
 	failTimeout bool                  // the failing Write calls report a time-out (net.Error) instead of a plain error
+	failNet     bool                  // ... or a non-time-out net.Error
 	pauseAt     int                   // index of the Write call that waits for `release` and then proceeds normally (-1: none)
 	release     chan struct{}         // closed by the harness to let the paused Write go on
 	delivered   chan struct{}         // closed when every chunk has been handed to the reader
@@ -115,6 +117,10 @@ func (c *memConn) Write(p []byte) (int, error) {
 		if c.failTimeout {
 			// what a socket with a write deadline returns: a net.Error whose Timeout() is true
 			return 0, &net.OpError{Op: "write", Net: "mem", Err: os.ErrDeadlineExceeded}
+		}
+		if c.failNet {
+			// a hard network error that is not a time-out (the route went away): also a net.Error
+			return 0, &net.OpError{Op: "write", Net: "mem", Err: syscall.ENETUNREACH}
 		}
 		return 0, trErr{k}
 	}
